@@ -751,7 +751,7 @@ impl Value {
                             ctx.add_variable_from_value(&comprehension.accu_var, accu);
                         }
                     }
-                    t => todo!("Support {t:?}"),
+                    t => return Err(ExecutionError::UnsupportedTargetType { target: t }),
                 }
                 Value::resolve(comprehension.result.deref(), &ctx)
             }
